@@ -196,7 +196,8 @@ def load_known(pid):
 def write_replay(pid, cond, tier, payload):
     os.makedirs(os.path.join(ROOT, "replay"), exist_ok=True)
     h = hashlib.sha1(json.dumps(payload, sort_keys=True).encode()).hexdigest()[:10]
-    path = os.path.join(ROOT, "replay", f"{pid}-{cond.name}-{h}.json")
+    safe = "".join(ch if ch.isalnum() or ch in "-_" else "_" for ch in cond.name)
+    path = os.path.join(ROOT, "replay", f"{pid}-{safe}-{h}.json")
     payload = dict(payload, property=pid, condition=cond.name, tier=tier, env=cond.env)
     with open(path, "w") as f:
         json.dump(payload, f, indent=1)
